@@ -1171,6 +1171,9 @@ class TermCanvas(Canvas):
         if "bold" in attributes and colors == 16 and fg is not None and fg < 8:
             fg += 8
 
+        if colors == 2**24 and not (isinstance(fg, str) or isinstance(bg, str)):
+            colors = 256  # no 24 bit color left in use
+
         def _defaulter(color: int | str | None, colors: int) -> str:
             if color is None:
                 return "default"
